@@ -493,6 +493,14 @@ def isup_flag(tree):
     raise NotRecognised("isup computation not recognised")
 
 
+def eth_speed_cast(src):
+    body = c_function(src, "psutil_ethtool_cmd_speed")
+    m = re.search(r"return\s*\(\s*(\(\s*(?:uint32_t|__u32|u32|unsigned(?:\s+int)?)\s*\)\s*)?ecmd->speed_hi\s*<<\s*16\s*\)\s*\|\s*ecmd->speed\s*;", body)
+    if not m:
+        raise NotRecognised("speed_hi << 16 | speed not recognised")
+    return bool(m.group(1))
+
+
 # ---------------------------------------------------------------------------------- all facts
 
 def facts(snap, F):
@@ -579,6 +587,9 @@ def facts(snap, F):
     F.try_add("ioprioPyClassGuard", "Option (Int × Int)", lambda: lean_opt_pair(ip()[2]), "ionice_set(): interval ioclass is restricted to (none = any int)")
     F.try_add("ioprioPyValueRange", "Int × Int", lambda: "(%s, %s)" % (lean_int(ip()[1][0]), lean_int(ip()[1][1])), "ionice_set(): value range")
     F.try_add("ioprioPyNoValueClasses", "List Int", lambda: lean_list(ip()[0], lean_int), "ionice_set(): classes that accept no value")
+
+    F.try_add("ethSpeedCast", "Bool", lambda: lean_bool(eth_speed_cast(memo("net.c", lambda: c_source(snap, "arch/linux/net.c")))),
+              "net.c widens speed_hi to a 32-bit unsigned type before `<< 16`")
 
     it = lambda: memo("iff", lambda: iff_table(posix_c()))
     F.try_add("iffTable", "List (String × String)", lambda: lean_list(it()[0], lambda e: "(%s, %s)" % (lean_str(e[0]), lean_str(e[1]))),
